@@ -241,7 +241,26 @@ class DPPSpec(SelSpec):
         else:
             probe = torch.tensor([[int(inst["probes"][0])]], dtype=torch.long)
             avail[0, int(inst["probes"][0])] = False
+        if "gen_mask" in inst:  # generator-made instance: the generator's own action_mask, verbatim
+            avail = torch.tensor([inst["gen_mask"]], dtype=torch.bool)
         return TensorDict(dict(locs=locs, probe=probe, action_mask=avail), batch_size=[1])
+
+    def seeded_instances(self, tier, seed):
+        """instances exactly as the environment's generator emits them (ports, keep-out cells AND its action_mask)"""
+        out = []
+        size, quota = 3, 2
+        env = self.env(dict(size=size, quota=quota))
+        with torch.random.fork_rng():
+            for j in range(4 if tier == "quick" else 12):
+                torch.manual_seed(8100 + 97 * seed + j)
+                td = env.generator(batch_size=[1])
+                mask = td["action_mask"][0].bool().tolist()
+                probes = td["probe"][0].bool().nonzero().flatten().tolist() if self.multi else [int(td["probe"][0, 0])]
+                keepout = [c for c in range(size * size) if not mask[c] and c not in probes]
+                if sum(1 for c in range(size * size) if c not in probes and c not in keepout) < quota:
+                    continue
+                out.append((f"{self.kind}3-gen-s{seed}-{j}", dict(size=size, probes=probes, keepout=keepout, quota=quota, gen_mask=mask)))
+        return out
 
     def hand_instances(self, tier):
         out = []
